@@ -21,7 +21,8 @@ class Contract:
                  modifies=(), returns=None, yields=None, loops=(), ghost=None, inline=False, trusted=False,
                  canaries=(), note='', variants=None, lemmas=(), cls_fields=None, eager_generator=True,
                  name=None, prop=None, allow_exc=(), ensures_exc=None, timeout=None, assume=(),
-                 ghost_post=None, exit_lemmas=(), domains=None, crosscheck=True, inline_at_calls=False, native_gen=None, exit_hints=(), ghost_init=None, globals_=None, materialise_ghost=()):
+                 ghost_post=None, exit_lemmas=(), domains=None, crosscheck=True, inline_at_calls=False, native_gen=None, exit_hints=(), ghost_init=None, globals_=None, materialise_ghost=(),
+                 unknown_calls=None, no_raise_calls=()):
         self.file = file
         self.func = func
         self.params = params or {}
@@ -53,6 +54,11 @@ class Contract:
         self.ghost_init = dict(ghost_init or {})   # ghost locals: name -> initial value expression
         self.materialise_ghost = list(materialise_ghost)
         self.exit_hints = list(exit_hints)   # terms (local-state expressions) offered to e-matching at exit; no logical content
+        # exception-effect contracts: unknown_calls='may-raise' makes every operation the model does not track (calls of
+        # functions without contract, operations on untracked values, unsupported constructs) return an untracked value
+        # and possibly raise Exception; no_raise_calls lists callee texts assumed total (recorded as assumptions)
+        self.unknown_calls = unknown_calls
+        self.no_raise_calls = list(no_raise_calls)
         self.lemmas = list(lemmas)     # extra axioms (strings) assumed at entry: recorded as assumptions
 
     @property
